@@ -1,3 +1,3 @@
 From Coq Require Import Extraction ExtrOcamlBasic ExtrOcamlString.
 From Cb Require Import C17.Model C10.Model C10.Lexer C10.ExprParse C10.Typedefs C10.StructGraph.
-Extraction "C10/c10_model.ml" lex_all lex_steps expr_verdict expr_tokens parse process define dash_d search3 string_ranges expand scan_total scan_total_b td_run td_step td_lookup resolved empty_tables sg_run.
+Extraction "C10/c10_model.ml" lex_all lex_steps expr_verdict expr_tokens parse process define dash_d search3 string_ranges expand scan_total scan_total_b td_run td_step td_lookup resolved empty_tables sg_run check_query detect_calls.
